@@ -14,14 +14,21 @@ from .common import bump, mx
 REL = common.REL
 
 
-def check_identity(root, who="real"):
-    """C01 balance-sheet identity through the public properties. Returns (list of (mech, witness), evaluations)."""
+def check_identity(root, who="real", px=None):
+    """C01 balance-sheet identity through the public properties. Returns (list of (mech, witness), evaluations).
+    px(sec) -> the input price of the security at root.now (independent of the tree); without it the security's own price is read,
+    but only AFTER its value (reading `price` brings an idle security up to date and would hide a stale `value`)."""
     out = []
     n = 0
     root.value  # refreshes the tree if stale
     g = ins.gross(root)
     t = REL * (1.0 + g)
-    for m in root.members:
+    members = root.members
+    secvals = {}
+    for m in members:
+        if not isinstance(m, StrategyBase):
+            secvals[id(m)] = (m.value, m.weight, m.position)     # as the parent sees them, before any per-security refresh
+    for m in members:
         if isinstance(m, StrategyBase):
             kids = list(m.children.values())
             s = m.capital + sum(c.value for c in kids)
@@ -37,13 +44,17 @@ def check_identity(root, who="real"):
                     if not abs(w - exp) <= 1e-9 * (1.0 + abs(exp)):
                         out.append(("c01_weight", {"tree": who, "node": c.full_name, "weight": w, "expected": exp, "value": c.value, "parent_value": pv,
                                                    "is_strategy": isinstance(c, StrategyBase), "root_bankrupt": bool(root.bankrupt)}))
-        else:
-            pos = m.position
-            n += 1
-            exp = 0.0 if pos == 0 else pos * m.price * m.multiplier
-            v = m.value
-            if not (abs(v - exp) <= t):
-                out.append(("c01_sec_value", {"tree": who, "node": m.full_name, "value": v, "position": pos, "price": m.price, "mult": m.multiplier}))
+    for m in members:
+        if isinstance(m, StrategyBase):
+            continue
+        v, w_, pos = secvals[id(m)]
+        n += 1
+        price = px(m) if px is not None else None
+        if price is None:
+            price = m.price
+        exp = 0.0 if pos == 0 else pos * price * m.multiplier
+        if not (abs(v - exp) <= t + REL * abs(exp)):
+            out.append(("c01_sec_value", {"tree": who, "node": m.full_name, "value": v, "position": pos, "price": price, "mult": m.multiplier}))
     return out, n
 
 
@@ -65,8 +76,13 @@ class Identity(object):
         self.bankrupt_seen = False
 
     def _check(self, drv, where):
+        def px(sec):
+            if sec.name in drv.data.columns:
+                return float(drv.data[sec.name].iloc[drv.di])
+            return None
+
         for who, r in trees(drv.root):
-            v, n = check_identity(r, who)
+            v, n = check_identity(r, who, px)
             bump(drv.cnt, "identity_evals", n)
             for mech, w in v:
                 w["where"] = where
